@@ -78,8 +78,9 @@ PROPS = {
  },
  "C11": {
   "props_modules": ["Ps3.Props.C11"],
-  "streams": [{"name": "c11", "bad_obs": BAD_OBS}],
-  "rule": "the product {PS3ISO,ps3iso,Ps3IsO,GAMES,PS3ISO2} x {.iso,.ISO,.IsO,.bin,.iso.bak,none} x {no key, adjacent, REDKEY, both (different keys), malformed adjacent (+valid REDKEY), malformed REDKEY, short adjacent, directory as key file, REDKEY being a regular file, 255-byte image name whose key name cannot exist} x {no, encrypted, decrypted watermark} x lengths {0xF7F,0xF80,0xF8F,0xF90,0x1000,0x106f,0x1070,0x1071,0x3000,0x8800} with as much of the watermark and key as fits (9000 layouts, nested or not) x 11 reads overlapping 0xF70..0x1070; quick samples 12%, thorough enumerates all; oracle = the harness's own decision table + reference transformation",
+  "streams": [{"name": "c11", "bad_obs": BAD_OBS}, {"name": "c10", "bad_obs": BAD_OBS}],
+  "rule": "the product {PS3ISO,ps3iso,Ps3IsO,GAMES,PS3ISO2} x {.iso,.ISO,.IsO,.bin,.iso.bak,none} x {no key, adjacent, REDKEY, both (different keys), malformed adjacent (+valid REDKEY), malformed REDKEY, short adjacent, directory as key file, REDKEY being a regular file, 255-byte image name whose key name cannot exist} x {no, encrypted, decrypted watermark} x lengths {0xF7F,0xF80,0xF8F,0xF90,0x1000,0x106f,0x1070,0x1071,0x3000,0x8800} with as much of the watermark and key as fits (9000 layouts, nested or not) x 11 reads overlapping 0xF70..0x1070; quick samples 12%, thorough enumerates all; oracle = the harness's own decision table + reference transformation; "
+          "the c10 stream runs here as well: library access patterns through the decrypting and masking views, and every such image opened read-write (O_RDWR) through FS.OpenFile must read as stored ('every file opened for writing is passed through byte-identically')",
   "assumptions": ["'any case' = Go strings.ToLower equality"] + _CONN_ASSUME,
  },
  "C20": {
